@@ -148,7 +148,7 @@ def _explore(unit, par):
         out["error"] = f"unsupported: {e}"
     except KeyError as e:
         if "contract anchor lost" in str(e):
-            out["error"] = str(e)
+            out["error"] = str(e).strip('"')
         else:
             out["crash"] = traceback.format_exc()
     except Exception:
